@@ -31,7 +31,7 @@ RULE = ("random operation histories (length <= 12; all histories of length <= 3 
 ASSUMPTIONS = ["laziness of the tools themselves is C05's concern; here the stdlib twin predicts how many items a tool takes",
                "athrow is not part of the property's operation list and is not generated"]
 EXHAUSTIVE = {"quick": False, "thorough": False}
-N_RANDOM = {"quick": 12000, "thorough": 300000}
+N_RANDOM = {"quick": 30000, "thorough": 1500000}
 FLAVS = ["async_gen", "async_class", "async_class_bare", "async_class_full", "async_class_asend"]
 
 STOP = "STOP"
@@ -190,8 +190,6 @@ def run_history(case, stats, scoped=None):
                 if own[h] == "closed":
                     return  # closed is permanent
                 own[h] = value
-                if value == "closed":
-                    self_closed.add(h)
 
         state = _State()
 
@@ -273,6 +271,9 @@ def run_history(case, stats, scoped=None):
                     fail("borrow/aclose-raises", f"op {n} {op}: {type(exc).__name__}: {exc}")
                     return
                 state[h] = "closed"
+                # only an explicit aclose certainly rebinds asend; a tool may merely have exhausted the handle
+                # (zip_longest drops exhausted inputs without closing them)
+                self_closed.add(h)
                 counters["handle_closes"] += 1
             elif kind == "reborrow":
                 src = under if op[1] < 0 or op[1] >= len(handles) else handles[op[1]]
